@@ -28,6 +28,12 @@ pub mod zz_must_fail {
         requires a.len() == b.len(),
         ensures crate::parser::locale_err(subtags_of(a)) == crate::parser::locale_err(subtags_of(b)),
     { if same_fold_bytes(a, b) { crate::lemma_locale_case_sep_invariant(a, b, l); } }
+    pub proof fn zz_must_fail_order(tv: TView, kt: Seq<tinystr::TinyAsciiStr<4>>, mt: KvMap, al: Seq<Seq<u8>>, ku: Seq<tinystr::TinyAsciiStr<4>>, mu: KvMap, uv: UView, xv: Seq<Seq<u8>>)
+        requires
+            tv.has_lang ==> lid_view_ok(tv.lang), kv_keys_ok(kt, mt, false), tv.fields == kv_restrict(kt, mt),
+            attr_listing_ok(al), kv_keys_ok(ku, mu, true), u_gen_view_ok(al, ku, mu, uv), x_view_wf(xv),
+        ensures ext_parse(u_gen_toks(al, ku, mu) + (t_gen_toks(tv, kt, mt) + x_toks(xv)), ev0())->Ok_0.u is None,
+    { lemma_ext_order_invariant(true, tv, kt, mt, al, ku, mu, uv, xv); }
     pub fn zz_must_fail_locale(v: &[u8]) {
         let r = crate::Locale::from_bytes(v);
         assert(r is Ok);
